@@ -277,3 +277,93 @@ Section Single.
     | _ => true
     end.
 End Single.
+
+(* ---------- what a self-describing reader must find in the re-encoded message ---------- *)
+Section Reenc.
+  Variable S : schema.
+
+  Definition init_tvar (f : field) : option tval := option_map (to_tval S (f_ty f)) (init_var f).
+
+  (* finish_fields on value trees: set variables, IDL defaults, nothing for empty optionals *)
+  Fixpoint finish_tv (fs : list field) (tvars : list (option tval)) : list (Z * tval) :=
+    match fs, tvars with
+    | [], _ => []
+    | f :: ft, v :: vt =>
+        match v with
+        | Some x => (f_id f, x) :: finish_tv ft vt
+        | None =>
+            match f_dflt f with
+            | Some (_, d) => (f_id f, to_tval S (f_ty f) d) :: finish_tv ft vt
+            | None => finish_tv ft vt
+            end
+        end
+    | _ :: _, [] => []
+    end.
+
+  Fixpoint reenc (t : ty) (v : tval) {struct v} : tval :=
+    match v with
+    | VList _ l =>
+        match resolve S t with
+        | TyList et =>
+            VList (ttype_of_ty S et) ((fix go (l : list tval) : list tval := match l with [] => [] | x :: r => reenc et x :: go r end) l)
+        | _ => v
+        end
+    | VSet _ l =>
+        match resolve S t with
+        | TySet et =>
+            VSet (ttype_of_ty S et) ((fix go (l : list tval) : list tval := match l with [] => [] | x :: r => reenc et x :: go r end) l)
+        | _ => v
+        end
+    | VMap _ _ l =>
+        match resolve S t with
+        | TyMap kt vt =>
+            VMap (ttype_of_ty S kt) (ttype_of_ty S vt)
+              ((fix go (l : list (tval * tval)) : list (tval * tval) :=
+                  match l with [] => [] | (a, b) :: r => (reenc kt a, reenc vt b) :: go r end) l)
+        | _ => v
+        end
+    | VStruct fs =>
+        match resolve S t with
+        | TyRef n =>
+            match lookup S n with
+            | Some (DStruct dfs keep _) =>
+                (* known fields in declaration order (the last occurrence of each, defaults filled), then -- when the
+                   declaration keeps -- the ignored fields exactly as they were, in wire order *)
+                let r :=
+                  (fix go (fs : list (Z * tval)) (tvars : list (option tval)) (U : list (Z * tval)) {struct fs}
+                     : list (option tval) * list (Z * tval) :=
+                     match fs with
+                     | [] => (tvars, U)
+                     | (id, x) :: r =>
+                         match match_field S dfs O (Some id) (ttype_of x) with
+                         | Some (i, f) => go r (set_nth i (Some (reenc (f_ty f) x)) tvars) U
+                         | None => go r tvars (if keep then U ++ [(id, x)] else U)
+                         end
+                     end) fs (map init_tvar dfs) [] in
+                VStruct (finish_tv dfs (fst r) ++ snd r)
+            | Some (DUnion vs _ true) =>
+                match fs with
+                | [] => VStruct []
+                | (id, x) :: _ =>
+                    match variant_by_id S vs id with
+                    | Some vt => VStruct [(id, reenc vt x)]
+                    | None => VStruct [(id, x)]            (* `_UnknownFields`: the field as it was *)
+                    end
+                end
+            | Some (DUnion vs _ false) =>
+                VStruct ((fix go (fs : list (Z * tval)) : list (Z * tval) :=
+                            match fs with
+                            | [] => []
+                            | (id, x) :: r =>
+                                match variant_by_id S vs id with
+                                | Some vt => [(id, reenc vt x)]
+                                | None => go r
+                                end
+                            end) fs)
+            | _ => v
+            end
+        | _ => v
+        end
+    | _ => v
+    end.
+End Reenc.
